@@ -11,6 +11,7 @@ import concurrent.futures as cf
 import json
 import os
 import random
+import re
 import shutil
 import subprocess
 import time
@@ -53,6 +54,13 @@ def boundary_file(table, n):
         return HEAD.replace("'verif'", "'%s'" % ("h" * n)) + TAIL
     if table == "instance_id":
         return HEAD + "#%s=TGT(2);\n" % ("9" * n) + TAIL
+    if table.startswith("extreme:"):
+        _, kind, text = table.split(":", 2)
+        # as a plain attribute, as an aggregate element, inside a typed SELECT value and as a NUMBER
+        if kind == "real":
+            return HEAD + ("#2=SIMPLE(1,%s,3.5,'s',\"0\",.T.,.U.,.RED.);\n#3=SIMPLE(1,2.5,%s,'s',\"0\",.T.,.U.,.RED.);\n"
+                           "#4=AGGS((1),(%s,1.5),$,$,$,$,$,$);\n#5=DEEPSEL(WID(%s),$,());\n#6=TGT(6);\n" % (text, text, text, text)) + TAIL
+        return HEAD + "#2=SIMPLE(%s,2.5,3.5,'s',\"0\",.T.,.U.,.RED.);\n#4=AGGS((%s,1),$,$,$,$,$,$,$);\n#5=DEEPSEL(CNT(%s),$,());\n#6=TGT(6);\n" % (text, text, text) + TAIL
     if table.startswith("degenerate:"):
         d = table.split(":")[1]
         return {"empty": "", "magic_only": "ISO-10303-21;\n", "header_only": "ISO-10303-21;\n" + p21.HEADER % "RT",
@@ -80,7 +88,7 @@ def run(ctx):
     ind = mkdir(os.path.join(wd, "in"))
     inputs = []       # (tag, path, driver)
     for f in sorted(fam, key=lambda f: (f["table"], f["n"], f.get("parts", []))):
-        p = os.path.join(ind, "b_%s_%d%s.p21" % (f["table"].replace(":", "_"), f["n"], "_" + "_".join(f["parts"]) if "parts" in f else ""))
+        p = os.path.join(ind, "b_%s_%d%s.p21" % (re.sub(r"[^A-Za-z0-9_.+-]", "_", f["table"]), f["n"], "_" + "_".join(f["parts"]) if "parts" in f else ""))
         if f["table"] == "parts":
             open(p, "w").write(HEAD + "#2=(%s);\n#3=TGT(3);\n" % "".join(x + "()" for x in f["parts"]) + TAIL)
             inputs.append(("boundary:parts:%s" % "+".join(f["parts"]), p, drv))
@@ -142,7 +150,6 @@ def run(ctx):
     # every single-character edit of the DATA section (spec/TokMut.tla on characters: each character deleted, doubled,
     # swapped with its neighbour, each piece of CHAR_INS inserted at each offset) of the populations richest in typed
     # select values, nested aggregates and strings
-    import re
     from vf import tokmut
 
     def richness(t):
@@ -175,7 +182,6 @@ def run(ctx):
         san = ("ERROR: AddressSanitizer" in err) or ("runtime error:" in err) or rc in (98, 99)
         frame = ""
         if san or rc < 0 or rc == 134:
-            import re
             for ln in err.split("\n"):
                 m = re.search(r"#\d+ 0x[0-9a-f]+ in (\S+) (/repo/\S+?):(\d+)", ln)
                 if m:
